@@ -1285,4 +1285,42 @@ theorem relayIO_holds (c : IPText) (hrt : c.RT) (dns : Bool) (answer : Bool → 
   rw [hmap]
   exact hperm.map _
 
+/-! ### handleSocksConnection -/
+
+theorem ad_reply_failure : isFailureReply (sendReply0 adapter.socksRepServerFailure) = true := by decide
+
+theorem adConn_holds (c : IPText) (cfg : AdCfg) (chunks : List Bytes) (tail : Tail) :
+    holdsAdConn cfg chunks.flatten (adConnection c cfg ⟨chunks, tail⟩).1
+      (chunks.flatten.length - (adConnection c cfg ⟨chunks, tail⟩).2.flat.length) true = true := by
+  have hf := P.runSrc_flat (adHandshakeP c cfg) ⟨chunks, tail⟩
+  have hf1 : ((adHandshakeP c cfg).runSrc ⟨chunks, tail⟩).1 = ((adHandshakeP c cfg).runFlat chunks.flatten).1 := hf.1
+  have hf2 : ((adHandshakeP c cfg).runSrc ⟨chunks, tail⟩).2.flat =
+      ((adHandshakeP c cfg).runFlat chunks.flatten).2 := hf.2
+  have hh := adHandshake_flat_holds c cfg chunks.flatten
+  unfold holdsAd holdsNeg adObs at hh
+  simp only at hh
+  unfold holdsAdConn adConnection adNegotiate
+  rw [hf1]
+  generalize (adHandshakeP c cfg).runFlat chunks.flatten = res at hh hf2
+  obtain ⟨⟨out, written⟩, left⟩ := res
+  simp only at hh hf2 ⊢
+  generalize chunks.flatten.length = L at hh ⊢
+  cases hd : decodeNeg (adapterProfile cfg) chunks.flatten with
+  | reject why used pre =>
+    rw [hd] at hh
+    simp only [agrees, Bool.and_eq_true, decide_eq_true_eq] at hh
+    obtain ⟨⟨⟨h1, h2⟩, h3⟩, h4⟩ := hh
+    cases out with
+    | ok r => simp [AdOut.res] at h1
+    | fail e => simp [hf2, h2, h3, h4]
+  | accept cmd a port used pre =>
+    rw [hd] at hh
+    simp only [agrees, Bool.and_eq_true, decide_eq_true_eq, beq_iff_eq] at hh
+    obtain ⟨⟨h1, h2⟩, h3⟩ := hh
+    cases out with
+    | fail e => simp [AdOut.res] at h1
+    | ok r =>
+      subst h2
+      simp [hf2, h3, isPrefixOf_self_append, drop_self_append, ad_reply_failure]
+
 end Tunnox.C20
